@@ -56,6 +56,11 @@ def units(tier):
             out.append(("mixin", 2, s1, None, 7, extra))
             out.append(("mixin", 3, s1, "direct", 15, extra))
             out.append(("mixin", 3, "list", s1, 15, extra))
+    # extra == 4: the intermediate class opted in to the context but declares NO hooks of its own; the context must pass through it
+    for kind in ("mixin", "msgpack", "lazy"):
+        for s1 in ("direct", "list", "dict", "opt"):
+            for s2 in SHAPES + DSHAPES:
+                out.append((kind, 3, s1, s2, 15, 4))
     return out
 
 
@@ -169,8 +174,10 @@ class Tree:
         else:
             srcs.append(f"@dataclass\nclass A{base}:\n    tag: str\n{_cfg(on['A'], leaf_x)}{_hooks('A', on['A'])}")
             srcs.append(f"@dataclass\nclass B{base}:\n    tag: str\n    extra: int = 0\n{_cfg(on['B'], leaf_x)}{_hooks('B', on['B'])}")
+        self.hookless_mid = extra == 4
         if depth == 3:
-            srcs.append(f"@dataclass\nclass Mid{base}:\n    tag: str\n    c: {shape_type(s2, 'AB')}\n{_cfg(on['Mid'], mid_x)}{_hooks('Mid', on['Mid'])}")
+            srcs.append(f"@dataclass\nclass Mid{base}:\n    tag: str\n    c: {shape_type(s2, 'AB')}\n{_cfg(on['Mid'], mid_x)}"
+                        + ("" if self.hookless_mid else _hooks('Mid', on['Mid'])))
             srcs.append(f"@dataclass\nclass Root{base}:\n    tag: str\n    m: {q(shape_type(s1, 'Mid'))}\n{_cfg(on['Root'], root_x)}{_hooks('Root', on['Root'])}")
         else:
             srcs.append(f"@dataclass\nclass Root{base}:\n    tag: str\n    m: {q(shape_type(s1, 'AB'))}\n{_cfg(on['Root'], root_x)}{_hooks('Root', on['Root'])}")
@@ -226,27 +233,31 @@ def expected_trace(tree, root, case, context):
         _, flat, minsts, sub = case
         for m in minsts:
             mid_ok = root_ok and on["Mid"]
-            tr.append(("pre_s", "Mid", cv("Mid", mid_ok)))
+            if not tree.hookless_mid:
+                tr.append(("pre_s", "Mid", cv("Mid", mid_ok)))
             for i in sub[id(m)]:
                 n = type(i).__name__
                 ok = mid_ok and on[n]
                 tr += [("pre_s", n, cv(n, ok)), ("post_s", n, cv(n, ok))]
-            tr.append(("post_s", "Mid", cv("Mid", mid_ok)))
+            if not tree.hookless_mid:
+                tr.append(("post_s", "Mid", cv("Mid", mid_ok)))
     tr.append(("post_s", "Root", cv("Root", root_ok)))
     return tr
 
 
-def model_doc(x):
-    """the document the hooks' marks prescribe: every instance's own fields, tag + '!', one '_post' count."""
+def model_doc(x, plain=()):
+    """the document the hooks' marks prescribe: every instance's own fields, tag + '!', one '_post' count
+    (classes named in `plain` declare no hooks)."""
     if dataclasses.is_dataclass(x) and not isinstance(x, type):
-        d = {f.name: model_doc(getattr(x, f.name)) for f in dataclasses.fields(x)}
-        d["tag"] += "!"
-        d["_post"] = 1
+        d = {f.name: model_doc(getattr(x, f.name), plain) for f in dataclasses.fields(x)}
+        if type(x).__name__ not in plain:
+            d["tag"] += "!"
+            d["_post"] = 1
         return d
     if isinstance(x, dict):
-        return {k: model_doc(v) for k, v in x.items()}
+        return {k: model_doc(v, plain) for k, v in x.items()}
     if isinstance(x, (list, tuple)):
-        return [model_doc(v) for v in x]
+        return [model_doc(v, plain) for v in x]
     return x
 
 
@@ -332,7 +343,7 @@ def run_unit(unit, only=None):
                         # a codec (and a format mixin's to_<format>, see F-FORMAT-MIXIN-SUBCLASS-FIELDS under C04) serializes a field by its
                         # annotated class (DBase), not by the instance's class: these entry points are exercised on the deserialization
                         # side, on the document the per-instance route (to_dict) produces
-                        out = model_doc(root)
+                        out = model_doc(root, ("Mid",) if tree.hookless_mid else ())
                         got = exp = []
                     else:
                         try:
@@ -341,8 +352,8 @@ def run_unit(unit, only=None):
                             V("serialize-raised", ep, vi, f"{e!r:.300}", type(e).__name__)
                             continue
                         got = list(tree.log)
-                        if static_only and out != model_doc(root):
-                            V("hook-return-not-used-once", ep, vi, f"output={out!r:.300} model={model_doc(root)!r:.300}", "serialize")
+                        if static_only and out != model_doc(root, ("Mid",) if tree.hookless_mid else ()):
+                            V("hook-return-not-used-once", ep, vi, f"output={out!r:.300} model={model_doc(root, ("Mid",) if tree.hookless_mid else ())!r:.300}", "serialize")
                             continue
                     if not (static_only and ep != "mixin"):
                         exp = expected_trace(tree, root, case, context if takes_ctx else None)
@@ -357,7 +368,15 @@ def run_unit(unit, only=None):
                         V("context-not-forwarded", ep, vi, f"expected={exp!r:.300} got={got!r:.300}", "context")
                         continue
                     marks = walk_marks(out, [])
-                    if len(marks) != ninst or any(not re.fullmatch(r"[a-z]+!", t) or p != 1 for t, p in marks):
+                    nmid = 0
+                    if tree.hookless_mid:
+                        # the hook-less intermediate nodes carry no marks: tag 'm' unchanged, no '_post'
+                        nmid = sum(1 for t, p in marks if (t, p) == ("m", None))
+                        marks = [(t, p) for t, p in marks if (t, p) != ("m", None)]
+                        if nmid != len(case[2]):
+                            V("hook-return-not-used-once", ep, vi, f"output={out!r:.300} unmarked intermediate nodes={nmid} expected={len(case[2])}", "serialize")
+                            continue
+                    if len(marks) != ninst - nmid or any(not re.fullmatch(r"[a-z]+!", t) or p != 1 for t, p in marks):
                         V("hook-return-not-used-once", ep, vi, f"output={out!r:.300} marks={marks}", "serialize")
                         continue
                     # ---- deserialize the produced document
@@ -370,7 +389,7 @@ def run_unit(unit, only=None):
                     log = list(tree.log)
                     insts = walk_instances(back, [])
                     posts = sorted(n for k, n in log if k == "post_d")
-                    names = sorted(type(i).__name__ for i in insts)
+                    names = sorted(type(i).__name__ for i in insts if not (tree.hookless_mid and type(i).__name__ == "Mid"))
                     if posts != names:
                         V("post-deserialize-count", ep, vi, f"input={out!r:.200} instances={names} post_hooks={posts}", "deserialize")
                         continue
@@ -386,7 +405,7 @@ def run_unit(unit, only=None):
                     if bad_order:
                         V("pre-after-post-deserialize", ep, vi, f"log={log}", "deserialize")
                         continue
-                    if any(not re.fullmatch(r"[a-z]+!\?\$", i.tag) for i in insts):
+                    if any(not re.fullmatch(r"[a-z]+!\?\$", i.tag) for i in insts if not (tree.hookless_mid and type(i).__name__ == "Mid")):
                         V("hook-return-not-used-once", ep, vi, f"result={back!r:.300}", "deserialize")
                         continue
                     res.outcomes["ok"] += 1
